@@ -1870,10 +1870,20 @@ def check_property(pid, tier, seed, do_lean=True, write_evidence=True):
         js = GENERATORS[pid](rng, tier)
         add_clone_hops(js, random.Random(seed * 7919 + int(pid[1:])))
         augment_jobs(js, random.Random(seed * 104729 + int(pid[1:])), pid, tier)
-        CH = 4000
         try:
-            for i in range(0, len(js), CH):
-                results += run_jobs(js[i:i + CH])
+            # batches bounded by the number of operation lines they expand to (a thorough C18 job is half a million lines)
+            batch, weight = [], 0
+            for j in js:
+                o = getattr(j, "ops", None)
+                o = None if callable(o) else o
+                w = 4 * getattr(j, "L", 0) if j.kind == "heap" else len(o or getattr(j, "xs", None) or getattr(j, "bits", None) or []) \
+                    + sum(len(x) for x in (getattr(j, "streams", None) or []))
+                if batch and (weight + w > 6_000_000 or len(batch) >= 4000):
+                    results += run_jobs(batch)
+                    batch, weight = [], 0
+                batch.append(j); weight += w
+            if batch:
+                results += run_jobs(batch)
         except core.BuildError as ex:
             build_error = str(ex)
     impl_cov = None
